@@ -356,9 +356,22 @@ func c17MuxLookahead(c *Ctx) {
 		}
 		ct := map[string]string{"proto": "application/protobuf", "json": "application/json"}[codec]
 		sfx.reset(nil)
-		rec, pn := sfx.serveStream("POST", "/c06/bidi", map[string]string{"Content-Type": ct, "Accept": ct}, wire, sched, c.Rng.Intn(2) == 0, false)
+		eofd := c.Rng.Intn(2) == 0
 		in := fmt.Sprintf("mux-lookahead-%s msgs=%d wire=%x sched=%v (the handler replies between receives)", codec, len(msgs), trunc(wire, 80), trunc2(sched, 12))
 		c.Eval("mux-lookahead", in, true)
+		var rec *httptest.ResponseRecorder
+		var pn interface{}
+		done := make(chan struct{})
+		go func() {
+			rec, pn = sfx.serveStream("POST", "/c06/bidi", map[string]string{"Content-Type": ct, "Accept": ct}, wire, sched, eofd, false)
+			close(done)
+		}()
+		select {
+		case <-done:
+		case <-time.After(3 * time.Second): // the stream never reports its end: say so and stop (the goroutine is left behind)
+			c.SpecFail("mux-lookahead", in, "the handler is still receiving after 3 s", "the stream ends", "C17/mux-lookahead/endless", "a message stream through the mux's look-ahead buffer never reports its end")
+			return
+		}
 		ok := pn == nil && rec.Code == 200 && len(sfx.got) == len(msgs) && sfx.final == "eof"
 		for k := 0; ok && k < len(msgs); k++ {
 			ok = bytes.Equal(sfx.got[k], msgs[k])
